@@ -612,6 +612,6 @@ def run(cx, out):
     # premises: derived impls (C05); bulk paths reinterpret memory only for the primitives named by TYPE_INFO (C01
     # R01.3); all encoding entry points agree (C07 R07.1); every Input implementation delivers exactly the bytes asked
     # for or fails (C08 R08.4)
-    shared.premises(cx, out, {'c05': {'R05.5', 'R05.2'}, 'c01': {'R01.3'}, 'c07': {'R07.1'}, 'c08': {'R08.4', 'R08.3'}, 'c13': {'R13.4'}})
+    shared.premises(cx, out, {'c05': {'R05.5', 'R05.2', 'R05.1'}, 'c01': {'R01.3'}, 'c07': {'R07.1'}, 'c08': {'R08.4', 'R08.3'}, 'c13': {'R13.4'}})
     from . import positive
     positive.check(cx, out, 'C02')
